@@ -98,7 +98,7 @@ PROPS = {
     "C07": {
         "suites": ["c07lock", "c07conc", "scope-c07seq"],
         "assumptions": COMMON_ASSUME + [
-            "Model.Registry models one shard, identities without sanitizer aliasing and one counter per scope (aliasing is sequential and covered by Model.Scope / scope-c07seq; counters of one scope do not interact)",
+            "Model.Registry models one shard and one counter per scope (counters of one scope do not interact); keys are raw spellings with an arbitrary idempotent sanitizer on keys as a parameter, a scope is registered under its sanitized key and under the raw keys that asked for it, exactly as registry.Subscope does; raw and sanitized key of one request live in the same shard in the code (the shard is chosen by the raw key), several shards are covered sequentially by Model.Scope",
             "lock-protected regions without a schedule point are single atomic steps; Go's RWMutex gives mutual exclusion and no lock is taken recursively",
             "the order in which a pass walks a shard (Go map iteration) is observed, not predicted",
         ],
